@@ -175,7 +175,11 @@ def prepare_scratch(unit_files, profile):
                      "mod verif_kani_%s {\n\tuse super::*;\n%s\n}\n" % (uf.name, uf.body))
         with open(p, "w") as f:
             f.write(text)
-    for crate in crates:
+    # support modules are injected into every crate that has one (dependants such as grin_p2p
+    # use grin_core's KReader/KWriter through `crate::core::verif_kani_support`)
+    all_support = [os.path.basename(x)[:-len(".support.rs")] for x in
+                   glob.glob(os.path.join(VERIF, "units", "_shared", "*.support.rs"))]
+    for crate in sorted(set(all_support)):
         sup = os.path.join(VERIF, "units", "_shared", crate + ".support.rs")
         if os.path.exists(sup):
             lib = os.path.join(d, crate_dir(crate), "src", "lib.rs")
